@@ -111,7 +111,7 @@ pub fn hold_case(rep: &mut Report, seed: u64, idx: u64, verbose: bool) {
         let mut sent_in_visit = 0u32;
         let mut asked_visit: Vec<Vec<usize>> = vec![Vec::new(); napps]; // visits in which app k was asked
         for (k, ev) in run.taps[i].iter() {
-            let TapEv::Ask { t, sent, high_prio_only } = ev else { continue };
+            let TapEv::Ask { t, sent, high_prio_only, .. } = ev else { continue };
             if *t < r[0] {
                 continue;
             }
